@@ -204,13 +204,25 @@ async def async_connect(transport):
 class AsyncTCPMySensorsProtocol(BaseMySensorsProtocol, asyncio.Protocol):
     """Async TCP protocol class."""
 
+    peer_closed = False
+
+    def eof_received(self):
+        """Handle the gateway device closing the connection."""
+        # The transport closes itself after this and reports connection_lost
+        # without an error, which alone would not trigger a reconnect.
+        self.peer_closed = True
+
     def connection_lost(self, exc):
         """Handle lost connection."""
         _LOGGER.debug("Connection lost with %s", self.transport)
         if self.gateway.cancel_check_conn:
             self.gateway.cancel_check_conn()
             self.gateway.cancel_check_conn = None
+        peer_closed, self.peer_closed = self.peer_closed, False
         self._connection_lost(exc)
+        if peer_closed and not exc:
+            _LOGGER.error("Connection closed by %s", self.gateway.server_address)
+            self.conn_lost_callback()
 
 
 class TCPTransport(serial.threaded.ReaderThread):
